@@ -11,13 +11,12 @@ From Clemens.C01Att Require Import FideFacts.
 From Clemens.C03Recon Require Import FideText Recon.
 From ClemensGen Require Import GoConsts.
 From Clemens.EngineE2E Require Import EngBase EngDispatch EngState EngSearch EngE2E EngText EngExamples EngFinal.
-From WipGame Require Import GameInv GameAfter GameWhole GameMate.
+From WipGame Require Import GameInv GameAfter GameWhole GameMate GameExDefs.
 Import ListNotations.
 Open Scope list_scope.
 Open Scope string_scope.
 
 (* ================================================================== goal 1: a session and the invariant *)
-Definition mate_fen : string := "6k1/5ppp/8/8/8/8/8/R3K3 w Q - 0 1".
 Definition session2 : list (bytes * option N) :=
   [(bs "uci", None); (bs "isready", None);
    (bs "position startpos moves e2e4 e7e5", None); (bs "go depth 1", None);
@@ -26,14 +25,6 @@ Definition session2 : list (bytes * option N) :=
    (bs "position fen 8/8/8 w", None);                              (* rejected: FEN too short *)
    (bs "ucinewgame", None);
    (bs ("position fen " ++ mate_fen ++ " moves"), None); (bs "go depth 2", Some 3%N)].
-
-Definition mate_six : list bytes := [bs "6k1/5ppp/8/8/8/8/8/R3K3"; bs "w"; bs "Q"; bs "-"; bs "0"; bs "1"].
-Definition mate_p0 : position := root_of mate_fen.
-
-Lemma mate_p0_fen : new_from_fen go_keys unicode_digit_tbl (join_sp mate_six) = Ok mate_p0.
-Proof. vm_compute. reflexivity. Qed.
-Lemma mate_p0_legal : legal_pos mate_p0.
-Proof. apply legal_pos_b_sound. vm_compute. reflexivity. Qed.
 
 Lemma not_position : forall line,
   match handle_line V line with CPosition _ => false | _ => true end = true -> in_domain_text line.
@@ -82,8 +73,116 @@ Example session2_reached :
   st_he (en_tt session2_end) <> 0%N.
 Proof.
   assert (E : run_ends 10 60 go_engine_init session2 = true) by (vm_compute; reflexivity).
-  pose proof (session_from_start 10 60 session2 _ _ (session2_in_domain 10 60 _) (run_ends_spec _ _ _ _ E)) as R.
-  fold session2_end in R.
+  assert (R : reached (searched_in 10 60 go_engine_init session2) session2_end)
+    by exact (session_from_start 10 60 session2 _ _ (session2_in_domain 10 60 _) (run_ends_spec _ _ _ _ E)).
   split; [exact R|]. split; [vm_compute; reflexivity|]. split; [vm_compute; reflexivity|].
   split; [exact (proj1 (proj2 (proj2 (reached_facts _ _ R))))|]. vm_compute. discriminate.
 Qed.
+
+(* ================================================================== goal 2: whole games *)
+Definition rd1 : round := {| rd_garbage := []; rd_ps := [PInt KDepth 1]; rd_c0 := None; rd_c := None |}.
+Definition rd2 : round :=
+  {| rd_garbage := [bs "xyzzy"]; rd_ps := [PInt KDepth 2; PInt KWtime 60000; PInt KBtime 60000];
+     rd_c0 := None; rd_c := Some 40%N |}.
+
+Lemma rd1_ok : round_ok rd1.
+Proof.
+  unfold round_ok, rd1; cbn [rd_garbage rd_ps]. split; [constructor|]. split; [constructor|].
+  split; [repeat constructor; cbn; tauto|]. split; [constructor; [cbn; lia|constructor]|cbn; discriminate].
+Qed.
+
+Lemma rd2_ok : round_ok rd2.
+Proof.
+  unfold round_ok, rd2; cbn [rd_garbage rd_ps].
+  split; [repeat constructor; discriminate|]. split; [repeat constructor|].
+  split; [repeat constructor; cbn; intuition discriminate|].
+  split; [repeat constructor; cbn; unfold min_int, max_int; lia|cbn; discriminate].
+Qed.
+
+(* an opponent: plays the scripted reply if it is legal, else the first legal move *)
+Definition script_opp (script : list fmove) (fms : list fmove) : fmove :=
+  let s := fide_after fms in
+  let want := nth (List.length fms / 2) script (mv 0 0 0 0) in
+  if legal s want then want else hd want (legal_moves_fast s).
+
+Lemma script_opp_legal : forall script, legal_strategy (script_opp script).
+Proof.
+  intros script fms s G Hne. unfold script_opp. rewrite (fide_after_game fms s G).
+  destruct (legal s (nth (List.length fms / 2) script (mv 0 0 0 0))) eqn:E; [apply legal_moves_iff; exact E|].
+  rewrite legal_moves_fast_eq. destruct (Fide.legal_moves s); [contradiction|left; reflexivity].
+Qed.
+
+Definition black_script : list fmove := [mv 4 6 4 4; mv 1 7 2 5; mv 6 7 5 5].     (* e7e5 b8c6 g8f6 *)
+Definition white_script : list fmove := [mv 4 1 4 3; mv 6 0 5 2; mv 5 0 2 3].     (* (e2e4) g1f3 f1c4 *)
+
+Definition show (r : game_log) :=
+  (gl_end r, map (fun m => text (fide_text m)) (gl_moves r),
+   map (fun l => (map (fun lc => text (fst lc)) (round_lines (rl_moves l) (rl_round l)), printed_lines (rl_out l)))
+       (gl_rounds r),
+   en_state (gl_engine r)).
+
+(* THREE ROUNDS, the engine plays White: what the kernel computes *)
+Example white_game_computed :
+  show (gui_game 10 60 (script_opp black_script) go_engine_init [] [rd1; rd2; rd1]) =
+  (GAllRounds, ["b1c3"; "e7e5"; "g1f3"; "b8c6"; "d2d4"; "g8f6"],
+   [(["position startpos moves"; "go depth 1"],
+     ["info string calculated timeout 900";
+      "info depth 1 score cp 50 time * nodes 22 nps * hashfull 0 pv b1c3"; "bestmove b1c3"]);
+    (["position startpos moves b1c3 e7e5"; "xyzzy go depth 2 wtime 60000 btime 60000"],
+     ["info string calculated timeout 915";
+      "info depth 1 score cp 50 time * nodes 45 nps * hashfull 0 pv g1f3"; "bestmove g1f3"]);
+    (["position startpos moves b1c3 e7e5 g1f3 b8c6"; "go depth 1"],
+     ["info string calculated timeout 900";
+      "info depth 1 score cp 48 time * nodes 47 nps * hashfull 0 pv d2d4"; "bestmove d2d4"])],
+   ST_IDLE).
+Proof. vm_compute. reflexivity. Qed.
+
+(* ... and what the theorem says about the same game under the bounds of C05: every hypothesis discharged (the search
+   hypothesis by running the game under the bounds 10 / 60) *)
+Example white_game_instance :
+  let opp := script_opp black_script in
+  gui_game 510 1282 opp go_engine_init [] [rd1; rd2; rd1] = gui_game 10 60 opp go_engine_init [] [rd1; rd2; rd1] /\
+  game_ok 510 1282 10 60 opp [] [] 3 (gui_game 510 1282 opp go_engine_init [] [rd1; rd2; rd1]).
+Proof.
+  cbv zeta.
+  apply (engine_plays_white 510 1282 10 60 (script_opp black_script) [rd1; rd2; rd1] [] go_engine_init); try lia.
+  - exact reached_init.
+  - apply script_opp_legal.
+  - constructor; [exact rd1_ok|constructor; [exact rd2_ok|constructor; [exact rd1_ok|constructor]]].
+  - cbn [List.length]. lia.
+  - vm_compute. discriminate.
+Qed.
+
+(* TWO ROUNDS, the engine plays Black *)
+Example black_game_computed :
+  show (gui_game 10 60 (script_opp white_script) go_engine_init [mv 4 1 4 3] [rd1; rd2]) =
+  (GAllRounds, ["e2e4"; "b8c6"; "g1f3"; "g8f6"; "f1c4"],
+   [(["position startpos moves e2e4"; "go depth 1"],
+     ["info string calculated timeout 900";
+      "info depth 1 score cp 0 time * nodes 24 nps * hashfull 0 pv b8c6"; "bestmove b8c6"]);
+    (["position startpos moves e2e4 b8c6 g1f3"; "xyzzy go depth 2 wtime 60000 btime 60000"],
+     ["info string calculated timeout 915";
+      "info depth 1 score cp 3 time * nodes 49 nps * hashfull 0 pv g8f6"; "bestmove g8f6"])],
+   ST_IDLE).
+Proof. vm_compute. reflexivity. Qed.
+
+Example black_game_instance :
+  let opp := script_opp white_script in
+  gui_game 510 1282 opp go_engine_init [mv 4 1 4 3] [rd1; rd2] = gui_game 10 60 opp go_engine_init [mv 4 1 4 3] [rd1; rd2] /\
+  game_ok 510 1282 10 60 opp [] [mv 4 1 4 3] 2 (gui_game 510 1282 opp go_engine_init [mv 4 1 4 3] [rd1; rd2]).
+Proof.
+  cbv zeta.
+  apply (engine_plays_black 510 1282 10 60 (script_opp white_script) [rd1; rd2] [] go_engine_init (mv 4 1 4 3)); try lia.
+  - exact reached_init.
+  - apply (proj2 (legal_moves_iff _ _)). vm_compute. reflexivity.
+  - apply script_opp_legal.
+  - constructor; [exact rd1_ok|constructor; [exact rd2_ok|constructor]].
+  - cbn [List.length]. lia.
+  - vm_compute. discriminate.
+Qed.
+
+Print Assumptions session2_reached.
+Print Assumptions white_game_computed.
+Print Assumptions white_game_instance.
+Print Assumptions black_game_computed.
+Print Assumptions black_game_instance.
